@@ -13,6 +13,8 @@ tied to the Go source by layer 1, and the arithmetic is tied to the running code
 import RegexVerif.Lemmas.Capacity
 import RegexVerif.Lemmas.VMCapacity
 import RegexVerif.Lemmas.Compose
+import RegexVerif.Lemmas.StackCapacity
+import RegexVerif.Lemmas.StackTypingEmit
 
 namespace RegexVerif.Props.C13
 open RegexVerif RegexVerif.Capacity RegexVerif.Lemmas.Capacity RegexVerif.Generated
@@ -419,5 +421,237 @@ example : ∃ qp, emitQuick info2 tree3 = some qp ∧ qp.trackcount = 5 ∧ phi 
   ⟨_, rfl, by decide, by decide⟩
 
 end Emitted
+
+/-! ------------------------------------------------------------------------------------------------
+### 6. The other two stacks: the grouping stack (`runstack`) and the crawl stack (`runcrawl`)
+
+An overflow of either is a store at index −1.  The crawl stack re-checks at every push.  The grouping stack is
+re-sized only inside `ensureStorage` (ONE doubling, when fewer than `4·TrackCount` slots are free), but the potential
+argument of sections 2–5 does NOT carry over: the Back / Back2 cases push the grouping stack (they restore what the
+forward case popped — `stack_case_shape`) and leave by `backtrack()`, which checks only when it lands on a smaller
+code position; frames of one instruction can be resumed many times in a row without a check.  What bounds the grouping
+stack is its typing (Props/C10): its height is a static function of the code position, up to the two slots a
+Back / Back2 case holds before it restores.  Consequence: for a typed program the doubling in `ensureStorage` never
+happens once the slice has `H + 2 + 4·TrackCount` slots (`H` = largest height of an assigned type).
+------------------------------------------------------------------------------------------------ -/
+
+section Stacks
+open RegexVerif.VM RegexVerif.Lemmas.VM RegexVerif.Lemmas.StackCapacity RegexVerif.Lemmas.StackTypingSound
+open RegexVerif.Writer RegexVerif.Lemmas.Compose
+
+/-- The sizing of the two stacks as read from the current runner.go: `initMatch` allocates `runtrackcount*8` grouping
+    slots, at least 32, and 32 crawl slots; `ensureStorage` doubles the grouping stack in an `if` (not a loop) when
+    `Runstackpos < runtrackcount*4`, `ensureStack(plus)` when `Runstackpos-plus < runtrackcount*4`; `doubleIntSlice`
+    allocates `oldLen*2`, copies the old contents to the upper half and moves the position up by `oldLen`; `crawl`
+    is `if runcrawlpos == 0 { double }; runcrawlpos--; store`; `stackPush` writes 1 slot, `stackPush2` 2.  These are
+    the literals of `Capacity.stackAlloc0`, `crawlAlloc0`, `stackEnsure`, `stackEnsurePlus`, `doubleLen`, `crawlPush`. -/
+theorem stack_storage_constants :
+    Opcodes.stackAllocFactor = 8 ∧ Opcodes.stackAllocMin = 32 ∧ Opcodes.crawlAlloc = 32 ∧
+    Opcodes.stackEnsureFactor = 4 ∧ Opcodes.ensureStackFactor = 4 ∧ Opcodes.doubleFactor = 2 ∧
+    Opcodes.crawlChecksEveryPush = true ∧
+    Opcodes.stackPushHelperSlots = [("stackPush", 1), ("stackPush2", 2)] := by decide
+
+/-- Shape of the cases with respect to the grouping stack, from the regenerated fingerprints: the same 69 case labels
+    as the backtracking-stack table; no case touches `runstack`/`Runstackpos` directly; in every case the pops precede
+    the pushes (so the depth inside a case never exceeds the larger of the depths before and after it); no case pushes
+    more than 2 slots; and the cases that push are exactly: forward `Branchmark` `Nullcount` `Setcount` `Branchcount`
+    `Lazybranchcount` `Nullmark` `Setmark` `Setjump`, and — restoring on the way back — `Branchmark|Back2`,
+    `Lazybranchmark|Back`, `|Back2`, `Branchcount|Back`, `|Back2`, `Lazybranchcount|Back`, `|Back2`, `Capturemark|Back`,
+    `Getmark|Back`: nine Back / Back2 cases push, which is why there is no potential argument for this stack. -/
+theorem stack_case_shape :
+    Opcodes.stackCases.map (fun c => (c.op, c.flag)) = Opcodes.cases.map (fun c => (c.op, c.flag)) ∧
+    Opcodes.stackCases.all (fun c => !c.raw && !c.popAfterPush && decide (c.maxPush ≤ 2)) = true ∧
+    (Opcodes.stackPushSlots.filter (fun e => e.2.2 != 0)) =
+      [(24, 0, 1), (24, 2, 1), (25, 1, 1), (25, 2, 1), (26, 0, 2), (27, 0, 2), (28, 0, 2), (28, 1, 2), (28, 2, 2),
+       (29, 0, 2), (29, 1, 2), (29, 2, 2), (30, 0, 1), (31, 0, 1), (32, 1, 1), (33, 1, 1), (34, 0, 2)] := by decide
+
+/-- **The model's cases push what the Go cases push.**  For every opcode and mode the number of slots the case of
+    `VM.body` pushes on the grouping stack (`spushMax`) is the regenerated fingerprint of the `case` of `executeDefault`,
+    and an iteration of the model lets the grouping stack grow by at most that. -/
+theorem vm_stack_push_table :
+    (∀ (o : Op) (m : Mode), spushMax o m = genStackPush o.toNat m.flag) ∧
+    ∀ (p : Code.Prog) (env : Env) (s s' : VMState) (chk : Bool) (o : Op) (m : Mode),
+      Op.ofNat? s.oper.op = some o → modeOf s.oper = some m → VM.step p env s = .next s' chk →
+      s'.stack.length ≤ s.stack.length + spushMax o m :=
+  ⟨spushMax_eq_generated, fun _ _ _ _ _ _ _ hop hm h => step_slen hop hm h⟩
+
+example : spushMax .setcount .fwd = 2 ∧ spushMax .getmark .back = 1 ∧ spushMax .getmark .fwd = 0 ∧
+    genStackPush Opcodes.opLazybranchcount 2 = 2 := by decide
+
+/-- **What the single doubling gives.**  `initMatch` allocates at least `8·tc` (and at least 32) slots; the length never
+    shrinks; when the slice is at least `4·tc` long — always, by the first two facts — ONE doubling re-establishes
+    `4·tc` free slots; and there is no doubling at all while `4·tc` slots are free.  (For a slice shorter than `4·tc`
+    one doubling would not be enough: second example.) -/
+theorem stack_ensure_establishes (tc len used : Nat) :
+    32 ≤ stackAlloc0 tc ∧ tc * 8 ≤ stackAlloc0 tc ∧ len ≤ stackEnsure tc len used ∧
+    (tc * 4 ≤ len → used ≤ len → used + tc * 4 ≤ stackEnsure tc len used) ∧
+    (used + tc * 4 ≤ len → stackEnsure tc len used = len) ∧ len ≤ stackEnsurePlus tc len used 1 :=
+  ⟨(stackAlloc0_ge tc).1, (stackAlloc0_ge tc).2, stackEnsure_ge tc len used, stackEnsure_spec, stackEnsure_idle,
+    stackEnsurePlus_ge tc len used 1⟩
+
+example : stackAlloc0 5 = 40 ∧ stackEnsure 5 40 20 = 40 ∧ stackEnsure 5 40 21 = 80 ∧ stackAlloc0 2 = 32 := by decide
+example : stackEnsure 10 8 8 = 16 ∧ ¬ (8 + 10 * 4 ≤ 16) := by decide
+
+/-- states reachable from `s0`, with the length of `runstack`: every iteration that passes through `ensureStorage`
+    (`chk`) applies the modelled `if` to the length, with the slots in use after the iteration's pushes -/
+inductive VMReachS (tc : Nat) (p : Code.Prog) (env : Env) (s0 : VMState) (cap0 : Nat) : VMState → Nat → Prop
+  | start : VMReachS tc p env s0 cap0 s0 cap0
+  | next {s s' : VMState} {cap : Nat} {chk : Bool} :
+      VMReachS tc p env s0 cap0 s cap → VM.step p env s = .next s' chk →
+      VMReachS tc p env s0 cap0 s' (if chk then stackEnsure tc cap s'.stack.length else cap)
+
+/-- **The interpreter never writes below index 0 of the grouping stack.**  Any well-formed program with a grouping-stack
+    typing whose types have height at most `H`, any text and start position, any `runtrackcount`: start as
+    `executeDefault` does (the check of `goTo(0)` on the empty stack, from a slice of `capA ≥ H + 2` slots) and run any
+    number of iterations.  In every reachable state the grouping stack holds at most `H + 2` slots — a bound that does
+    not depend on the text —, which fit in the capacity, and so do the slots in use after the next iteration
+    (`Runstackpos = cap − used ≥ 0` at every store; inside a case the pops come first, `stack_case_shape`). -/
+theorem vm_stack_no_overflow (p : Code.Prog) (hwf : p.wf = true) (bs : List Nat) (hb : p.boundaries = some bs)
+    (a : StackTyping.Assign) (hty : TypingW p bs a) (H : Nat) (hH : HBound a H)
+    (env : Env) (pos : Int) (h0 : 0 ≤ pos) (hn : pos ≤ env.len) (s0 : VMState) (hinit : VM.init p pos = .ok s0)
+    (tc capA : Nat) (hcap : H + 2 ≤ capA) (s : VMState) (cap : Nat)
+    (hr : VMReachS tc p env s0 (stackEnsure tc capA 0) s cap) :
+    s.stack.length ≤ H + 2 ∧ H + 2 ≤ cap ∧ s.stack.length ≤ cap ∧
+      ∀ s' chk, VM.step p env s = .next s' chk → s'.stack.length ≤ cap := by
+  obtain ⟨bs', hWF⟩ := wf_spec hwf
+  have e : bs' = bs := by have := hWF.bnd; rw [hb] at this; cases this; rfl
+  subst e
+  obtain ⟨s0', hi', hinv0⟩ := tinit_inv (env := env) (a := a) hWF pos h0 hn
+  rw [hinit] at hi'
+  cases hi'
+  have hs0 : s0.stack = [] := by
+    unfold VM.init at hinit
+    cases hf : fetch p 0 with
+    | error f => rw [hf] at hinit; cases hinit
+    | ok w0 => rw [hf] at hinit; simp only [Except.map] at hinit; cases hinit; rfl
+  have key : TInv p bs' env a s ∧ s.stack.length ≤ H + 2 ∧ H + 2 ≤ cap := by
+    induction hr with
+    | start => exact ⟨hinv0, by rw [hs0]; simp, by have := stackEnsure_ge tc capA 0; omega⟩
+    | @next s1 s2 c1 chk _ hstep ih =>
+      obtain ⟨hI, hS, hC⟩ := ih
+      have hI2 := tstep_ok hWF hty hI
+      rw [hstep] at hI2
+      refine ⟨hI2, tstep_height hty hH hI hS hstep, ?_⟩
+      cases chk with
+      | true => simp only [ite_true]; have := stackEnsure_ge tc c1 s2.stack.length; omega
+      | false => simpa using hC
+  obtain ⟨hI, hS, hC⟩ := key
+  exact ⟨hS, hC, by omega, fun s' chk hstep => by have := tstep_height hty hH hI hS hstep; omega⟩
+
+/-- **The doubling of the grouping stack in `ensureStorage` is dead code for typed programs.**  If the slice has room for
+    `H + 2` slots plus the `4·tc` the check asks for — `initMatch` allocates `8·tc`, so `H + 2 ≤ 4·tc` is enough —
+    then along every run the length of `runstack` never changes: no check ever doubles it. -/
+theorem vm_stack_never_grows (p : Code.Prog) (hwf : p.wf = true) (bs : List Nat) (hb : p.boundaries = some bs)
+    (a : StackTyping.Assign) (hty : TypingW p bs a) (H : Nat) (hH : HBound a H)
+    (env : Env) (pos : Int) (h0 : 0 ≤ pos) (hn : pos ≤ env.len) (s0 : VMState) (hinit : VM.init p pos = .ok s0)
+    (tc capA : Nat) (hcap : H + 2 + tc * 4 ≤ capA) (s : VMState) (cap : Nat)
+    (hr : VMReachS tc p env s0 (stackEnsure tc capA 0) s cap) : cap = capA := by
+  have hstart : stackEnsure tc capA 0 = capA := stackEnsure_idle (by omega)
+  rw [hstart] at hr
+  induction hr with
+  | start => rfl
+  | @next s1 s2 c1 chk hprev hstep ih =>
+    subst ih
+    cases chk with
+    | false => rfl
+    | true =>
+      simp only [ite_true]
+      have hprev' : VMReachS tc p env s0 (stackEnsure tc c1 0) s1 c1 := by rw [hstart]; exact hprev
+      have hle : s2.stack.length ≤ H + 2 := by
+        have hall := vm_stack_no_overflow p hwf bs hb a hty H hH env pos h0 hn s0 hinit tc c1 (by omega) s2
+          (if true then stackEnsure tc c1 s2.stack.length else c1) (.next hprev' hstep)
+        exact hall.1
+      exact stackEnsure_idle (by omega)
+
+/-- **Every emitted program has a text-independent bound on its grouping stack, and never overflows it.**  For every
+    well-formed tree there is an `H` (the largest height of the explicit typing `tyAt` of section "typing" of Props/C10)
+    such that for every text, start position, `\G` origin, oracles and `runtrackcount`, from any slice of at least
+    `H + 2` slots: in every reachable state of the attempt of the emitted program the grouping stack holds at most
+    `H + 2` slots, within the capacity, before and after each iteration; and from a slice of `H + 2 + 4·tc` slots the
+    length of `runstack` never changes (the doubling in `ensureStorage` is dead code).
+    PARTIAL — the full statement would give `H` in closed form: `H + 2 ≤ 4·TrackCount` for `H` = the largest height of
+    `tyAt` (every slot of a type is pushed by an enclosing `Setmark`/`Nullmark`/`Setcount`/`Nullcount`/`Setjump`, at
+    most 2 slots per backtracking instruction of the enclosing frames), hence `capA = stackAlloc0 TrackCount` qualifies
+    and `emitted_stack_no_overflow` would need no `capA` hypothesis.  That induction over `tyAt` is not done; leg W
+    evaluates `maxHeight + 2 ≤ 4·TrackCount` on every compiled program and compares `len(runstack)` after the attempts
+    with `stackAlloc0 TrackCount` (key `W:stackcap`). -/
+theorem emitted_stack_no_overflow_partial (ti : TreeInfo) (root : GoNode) (h : treeWf ti root = true) :
+    ∃ H : Nat, ∀ (env : Env) (pos : Int), 0 ≤ pos → pos ≤ env.len → ∀ (s0 : VMState),
+      VM.init (emit ti root) pos = .ok s0 → ∀ (tc capA : Nat), H + 2 ≤ capA → ∀ (s : VMState) (cap : Nat),
+      VMReachS tc (emit ti root) env s0 (stackEnsure tc capA 0) s cap →
+      (s.stack.length ≤ H + 2 ∧ s.stack.length ≤ cap ∧
+        ∀ s' chk, VM.step (emit ti root) env s = .next s' chk → s'.stack.length ≤ cap) ∧
+      (H + 2 + tc * 4 ≤ capA → cap = capA) := by
+  obtain ⟨bs, a, hb, hty⟩ := Lemmas.StackTypingEmit.emit_typing ti root h
+  refine ⟨maxH a, fun env pos h0 hn s0 hinit tc capA hcap s cap hr => ⟨?_, fun hc => ?_⟩⟩
+  · have := vm_stack_no_overflow _ (emit_vm_wf ti root h) bs hb a hty _ (hbound_maxH a) env pos h0 hn s0 hinit tc capA
+      hcap s cap hr
+    exact ⟨this.1, this.2.2.1, this.2.2.2⟩
+  · exact vm_stack_never_grows _ (emit_vm_wf ti root h) bs hb a hty _ (hbound_maxH a) env pos h0 hn s0 hinit tc capA
+      hc s cap hr
+
+/-- the same for the bool-only program -/
+theorem emittedQuick_stack_no_overflow_partial (ti : TreeInfo) (root : GoNode) (h : treeWf ti root = true)
+    (qp : Code.Prog) (hq : emitQuick ti root = some qp) :
+    ∃ H : Nat, ∀ (env : Env) (pos : Int), 0 ≤ pos → pos ≤ env.len → ∀ (s0 : VMState),
+      VM.init qp pos = .ok s0 → ∀ (tc capA : Nat), H + 2 ≤ capA → ∀ (s : VMState) (cap : Nat),
+      VMReachS tc qp env s0 (stackEnsure tc capA 0) s cap →
+      (s.stack.length ≤ H + 2 ∧ s.stack.length ≤ cap ∧
+        ∀ s' chk, VM.step qp env s = .next s' chk → s'.stack.length ≤ cap) ∧
+      (H + 2 + tc * 4 ≤ capA → cap = capA) := by
+  obtain ⟨bs, a, hb, hty⟩ := Lemmas.StackTypingEmit.emitQuick_typing ti root h qp hq
+  refine ⟨maxH a, fun env pos h0 hn s0 hinit tc capA hcap s cap hr => ⟨?_, fun hc => ?_⟩⟩
+  · have := vm_stack_no_overflow _ (emitQuick_vm_wf ti root h qp hq) bs hb a hty _ (hbound_maxH a) env pos h0 hn s0
+      hinit tc capA hcap s cap hr
+    exact ⟨this.1, this.2.2.1, this.2.2.2⟩
+  · exact vm_stack_never_grows _ (emitQuick_vm_wf ti root h qp hq) bs hb a hty _ (hbound_maxH a) env pos h0 hn s0
+      hinit tc capA hc s cap hr
+
+/-- non-vacuity: `demo` (`(?:ab?)*c`) and the program of `(a)|b\1` are well-formed and typed by the executable check
+    (so `Typing.toW (typed_spec …)` provides the hypotheses), with `maxHeight` 2 and 4: well below the 40 resp. 72 slots of the first allocation -/
+example : demo.wf = true ∧ StackTyping.typed demo = true ∧ StackTyping.maxHeight demo = 2 ∧
+    StackTyping.maxHeight (emit info2 tree2) = 4 ∧ stackAlloc0 demo.trackcount = 40 := by decide
+example : ∃ s0, VM.init (emit info2 tree2) 0 = .ok s0 ∧
+    VMReachS 9 (emit info2 tree2) demoEnv s0 (stackEnsure 9 72 0) s0 72 := ⟨_, rfl, .start⟩
+
+/-- states reachable from `s0`, with the length of `runcrawl`: the pushes of an iteration (`Capturemark` calls `crawl`
+    once or twice; every other case that touches the crawl stack only pops) go through `crawl`'s check one by one -/
+inductive VMReachC (p : Code.Prog) (env : Env) (s0 : VMState) (cap0 : Nat) : VMState → Nat → Prop
+  | start : VMReachC p env s0 cap0 s0 cap0
+  | next {s s' : VMState} {cap cap' used' : Nat} {chk : Bool} :
+      VMReachC p env s0 cap0 s cap → VM.step p env s = .next s' chk →
+      crawlPushN (s'.cap.crawl.length - s.cap.crawl.length) cap s.cap.crawl.length = some (cap', used') →
+      VMReachC p env s0 cap0 s' cap'
+
+/-- **The crawl stack never overflows**, for any program and run whatsoever: `crawl` checks at every push, and
+    `doubleIntSlice` of a FULL, NON-EMPTY slice (`runcrawlpos == 0`, length ≥ 1 — `initMatch` allocates 32) yields as many
+    free slots as there were used ones.  From any slice of at least one slot holding the current entries: in every
+    reachable state the entries fit, and the pushes of the next iteration all find a free slot (`crawlPushN … ≠ none`:
+    no store at index −1).  An EMPTY slice would never grow (`0 * 2 = 0`): third example. -/
+theorem vm_crawl_no_overflow (p : Code.Prog) (env : Env) (s0 : VMState) (cap0 : Nat) (h0 : 0 < cap0)
+    (hs0 : s0.cap.crawl.length ≤ cap0) (s : VMState) (cap : Nat) (hr : VMReachC p env s0 cap0 s cap) :
+    s.cap.crawl.length ≤ cap ∧ 0 < cap ∧
+      ∀ s' chk, VM.step p env s = .next s' chk →
+        ∃ cap', crawlPushN (s'.cap.crawl.length - s.cap.crawl.length) cap s.cap.crawl.length =
+          some (cap', s.cap.crawl.length + (s'.cap.crawl.length - s.cap.crawl.length)) ∧
+          s'.cap.crawl.length ≤ cap' := by
+  have key : s.cap.crawl.length ≤ cap ∧ 0 < cap := by
+    induction hr with
+    | start => exact ⟨hs0, h0⟩
+    | @next s1 s2 c1 c2 u2 chk _ hstep hpush ih =>
+      obtain ⟨l', e, g1, g2⟩ := crawlPushN_spec (s2.cap.crawl.length - s1.cap.crawl.length) c1 s1.cap.crawl.length ih.2 ih.1
+      rw [e] at hpush
+      cases hpush
+      exact ⟨by omega, by omega⟩
+  refine ⟨key.1, key.2, fun s' chk _ => ?_⟩
+  obtain ⟨l', e, g1, g2⟩ := crawlPushN_spec (s'.cap.crawl.length - s.cap.crawl.length) cap s.cap.crawl.length key.2 key.1
+  exact ⟨l', e, by omega⟩
+
+example : crawlAlloc0 = 32 ∧ crawlPush 32 31 = some (32, 32) ∧ crawlPush 32 32 = some (64, 33) ∧
+    crawlPushN 2 32 31 = some (64, 33) := by decide
+example : crawlPush 0 0 = none := by decide
+example : ∃ s0, VM.init demo 0 = .ok s0 ∧ VMReachC demo demoEnv s0 crawlAlloc0 s0 32 := ⟨_, rfl, .start⟩
+
+end Stacks
 
 end RegexVerif.Props.C13
